@@ -38,6 +38,8 @@ type vfPeer struct {
 	Rng   *vfRand
 	// OnRequest is called for every request frame body before the handler (monitors).
 	OnRequest func(req vfPkt, raw []byte, perr error)
+	// OnReply is called just before the reply to request id is written.
+	OnReply func(id uint32)
 
 	mu      sync.Mutex
 	cond    *sync.Cond
@@ -121,6 +123,9 @@ func (p *vfPeer) handle(body []byte) {
 	}
 	if p.HoldK <= 0 {
 		p.mu.Unlock()
+		if p.OnReply != nil {
+			p.OnReply(req.ID)
+		}
 		p.end.Write(reply)
 		p.mu.Lock()
 		p.stats.Replies++
@@ -186,6 +191,9 @@ func (p *vfPeer) responder() {
 		}
 		idleSpins = 0
 		for _, h := range out {
+			if p.OnReply != nil {
+				p.OnReply(h.id)
+			}
 			_, err := p.end.Write(h.reply)
 			p.mu.Lock()
 			p.stats.Replies++
